@@ -238,8 +238,9 @@ def run(prog: Program, rep, tier: str) -> None:
                     if d.startswith("logger.") or d in ("StepResult", "StepControlResult") or d.endswith("from_step_result"):
                         okuse = True
                 par = pm.get(id(par))
-            if isinstance(us.stmt, ast.Return) and isinstance(us.stmt.value, ast.Tuple) and name == "rcond":
-                okuse = True  # (dx, dy, rcond) of solve_scaled
+            if isinstance(us.stmt, ast.Return) and isinstance(us.stmt.value, ast.Tuple) and (name == "rcond" or (
+                    fi.name == "solve_scaled" and len(us.stmt.value.elts) == 3 and us.stmt.value.elts[2] is u_)):
+                okuse = True  # (dx, dy, rcond) of solve_scaled: the third slot is the condition estimate
             if not okuse and isinstance(us.stmt, ast.Assign) and len(us.stmt.targets) == 1 and isinstance(us.stmt.targets[0], ast.Name) and _alias_only(us.stmt.value):
                 # a temporary that merely carries the observer value on: it is held to the same rule
                 okuse = True
